@@ -75,9 +75,9 @@ CLAIMS['C19'] = dict(category='proof', ref='8 C19',
 
 _CLIENT_TEXT = ("Sequential Lean model of the client role (Connect, publish/subscribe/unsubscribe/ping with their completion wrappers, "
                 "processIncoming as a client) tied to the real service.Client by differential runs against a scripted TCP peer (PINGREQ "
-                "barrier from the peer; the ack-before-registration interleaving is forced through the verif ack-window hook), and "
+                "barrier from the peer; an acknowledgement that arrives between the write of a request and its registration is forced on the real code through the verif ack-window hook), and "
                 "compared event by event with a reference client written from MQTT 3.1.1 and the property text. %s")
-CLAIMS['C12'] = dict(category='exploration', ref='8 C12', text=_CLIENT_TEXT % "Theorems: under construction. Known finding E5 (ack processed before registration is lost) replayed on every run.",
+CLAIMS['C12'] = dict(category='exploration', ref='8 C12', text=_CLIENT_TEXT % "Theorems: under construction.",
                      technique="Lean 4 executable model + reference specification, differential correspondence with forced interleaving; proofs in progress")
 CLAIMS['C20'] = dict(category='exploration', ref='8 C20', text=_CLIENT_TEXT % "Theorems: under construction.",
                      technique="Lean 4 executable model + reference specification, differential correspondence; proofs in progress")
@@ -92,7 +92,8 @@ CLAIMS['C02'] = dict(category='proof', ref='5 Core E, 8 C02',
         "(C02_release_eager), other events do not touch the queue (C02_queue_frame); the QoS 2 queue is the FIFO of C13 "
         "(C02_pub2in_is_fifo/_is_ackqueue); persistence across reconnects of CleanSession=0 sessions (C02_persist, C02_resume, C02_clean_start). "
         "C02_refines_reference: after any admitted history the reference broker's open exchanges are the image of the model's queue, PUBREC/PUBCOMP and the hand-overs on PUBREL are those it demands. "
-        "The client role is tied by the client correspondence runs (its theorems are under C12/C20).") + _REFINE_FWD +
+        "The client role is tied by the client correspondence runs (its theorems are under C12/C20; since the repair of E5, 346378d, a PUBACK/PUBCOMP that arrives "
+        "before Publish has registered its request completes it - no recorded deviation of the sender side is left in these runs).") + _REFINE_FWD +
         " PARTIAL: content isolation from ring-buffer reuse is a memory-aliasing fact the pure model cannot exhibit; it is covered by the "
         "correspondence (payloads compared byte for byte after intervening traffic), not by a theorem.")
 
@@ -289,11 +290,21 @@ CLAIMS['C04'] = dict(category='proof', ref='5 Core A, 8 C04',
     note='Trusted: Lean kernel; axioms propext/Classical.choice/Quot.sound only; Go harness + line protocol + fact extractor; Go runtime semantics assumed by the model (see evidence.assumptions)')
 
 CLAIMS['C12'] = dict(category='proof', ref='8 C12', text=_CLIENT_TEXT % (
-    "Theorems (40, all histories / all reachable states): PUBREC answered by exactly PUBREL (C12_pubrec_pubrel); QoS 0 completes in the sending step "
+    "Theorems (47, all histories / all reachable states; every history may contain acknowledgements that arrive before the sending call has "
+    "registered its request - no such exclusion is left since the repair of E5, 346378d): PUBREC answered by exactly PUBREL (C12_pubrec_pubrel); QoS 0 completes in the sending step "
     "(C12_qos0_completes_at_once); per-queue conservation and exactly-once FIFO completion (C12_queue_conservation, C12_exactly_once_fifo), a terminal ack "
     "fires exactly the longest terminal prefix, never before a request's own terminal ack, eagerly (C12_completion_timing, C12_completion_no_later, "
     "C12_terminal_only_by_own_ack, C12_release_eager); pings, any number outstanding: every completion exactly once in call order, the n-th PINGRESP "
-    "completes the n-th Ping (C12_ping_exactly_once_fifo, C12_ping_completion_timing, C12_two_pings_both_complete); identifiers: the client model assigns as message.nextPacketID does since repair A2 "
+    "completes the n-th Ping (C12_ping_exactly_once_fifo, C12_ping_completion_timing, C12_two_pings_both_complete); the acknowledgement inside the "
+    "window: the composite event is, in every state, the call followed by the packet (C12_early_ack_is_call_then_ack), a request completes exactly once "
+    "and leaves its queue whether its terminal acknowledgement is processed after the call returned or arrives inside the window (C12_completes_on_ack, "
+    "C12_early_ack_completes = the E5 witness), an early PINGRESP shifts no later ping completion (C12_early_pingresp_no_shift); WHY the acknowledgement "
+    "waits: small-step model of the two critical sections of service.ackmu (Model/AckLock.lean: any number of senders Lock-write-[window]-Wait-Unlock, "
+    "processor Lock-Ack-Unlock-callbacks, peer sending anything at any time) - for every schedule no Ack falls between the write and the registration of "
+    "its request, an acknowledgement sent after the write finds the request, completions run outside the mutex (C12_ack_waits_for_registration, "
+    "C12_ack_critical_sections); without the mutex, or with Wait after Unlock, the acknowledgement is lost (C12_ack_window_unlocked_counterexample, "
+    "C12_ack_wait_outside_counterexample); the two programs are the source's: which functions take ackmu around which calls is regenerated from "
+    "service.go/process.go on every run and proved equal to the model's programs by decide (C12_ack_lock_structure_is_source); identifiers: the client model assigns as message.nextPacketID does since repair A2 "
     "(0 skipped, counter +2 at the wrap; tied by correspondence episodes that start the process-wide counter just before a 16-bit wrap, also at 2^64-1, with requests in flight): no event in no state writes a request "
     "with identifier 0 and identifiers in flight are non-zero, no counter hypothesis (C12_identifier_nonzero, C12_identifier_nonzero_call, C12_inflight_ids_nonzero, C12_next_identifier, C12_written_identifier); "
     "exactly-once FIFO completion now covers library-assigned identifiers (hypothesis FreshA, weaker than Fresh: C12_fresh_implies_freshA); pairwise distinct: within each ack queue always (C12_queue_ids_distinct, because "
@@ -302,18 +313,23 @@ CLAIMS['C12'] = dict(category='proof', ref='8 C12', text=_CLIENT_TEXT % (
     "library-assigned ones are not caller-supplied ones in flight, and fewer than 65535 identifiers are drawn process-wide while a library-numbered request stays in flight (C12_inflight_ids_distinct_partial, C12_window_in_draws); "
     "the unrestricted claim is false of the code - the counter is a blind 16-bit cycle - with closed counterexamples (C12_inflight_ids_distinct_counterexample: caller-supplied 1 then library-assigned 1, second completion never fires; "
     "one request in flight across 65535 draws); refinement of the reference client event by event on admitted histories (C12_refines_spec_partial/_step) with closed "
-    "counterexamples showing every excluded class is needed (E5 early ack, B3, late PUBREC, SUBACK code, auto id); several outstanding pings and "
-    "overlapping filters within one Subscribe request are admitted (C12_refines_spec_pings, C12_refines_spec_overlapping_filters; the single ping slot and "
-    "E9 - one callback invocation per matching filter - were repaired, their witnesses are regression cases). Known finding E5 is "
-    "replayed on the real code on every run with the interleaving forced through the ack-window hook.") +
-    " PARTIAL: timing ('promptly') is not modelled; the step granularity of a sending call is {write, register} as delimited by the hook.")
+    "counterexamples showing every excluded class is needed (B3, late PUBREC, SUBACK code, auto id); acknowledgements inside the window, several outstanding pings and "
+    "overlapping filters within one Subscribe request are admitted (C12_refines_spec_early_acks, C12_refines_spec_pings, C12_refines_spec_overlapping_filters; E5 - an "
+    "acknowledgement processed before the registration was dropped -, the single ping slot and "
+    "E9 - one callback invocation per matching filter - were repaired, their witnesses are regression cases). The generator puts acknowledgements into "
+    "the window of publish, subscribe, unsubscribe and ping calls in every episode (own acknowledgement, that of an older request, PINGRESP with several pings outstanding).") +
+    " PARTIAL: timing ('promptly') is not modelled; the step granularity of a sending call is {write, register} as delimited by the hook; the small-step "
+    "model of ackmu abstracts the ack queue to one registered-flag per request and is tied to the source lexically (call order inside the five functions), "
+    "not by execution; absence of deadlock under full buffers is argued in NOTES-e5.md, not proved.")
 CLAIMS['C20'] = dict(category='proof', ref='8 C20', text=_CLIENT_TEXT % (
     "Theorems (10): Connect succeeds iff CONNACK code 0, returns the refusal code otherwise, and changes nothing in every non-success case (C20_connect); "
     "an inbound QoS 2 PUBLISH is not dispatched at PUBLISH time, duplicates are suppressed, it is dispatched once at PUBREL in FIFO order "
     "(C20_qos2_*); after the SUBACK a message invokes the request's callback exactly once iff a granted filter matches under section 4.7, however many "
     "of the request's filters match it (C20_dispatch, C20_dispatch_qos2, C20_dispatch_overlapping_once; the invocation carries the highest QoS the matching "
     "filters allow, independent of Go map order: C20_dispatch_highest_qos; E9 was repaired, its witness is a regression case); after "
-    "the UNSUBACK a callback held only under listed filters is never invoked again and any other callback exactly once per matching message (C20_unsubscribe_stops).") +
+    "the UNSUBACK a callback held only under listed filters is never invoked again and any other callback exactly once per matching message (C20_unsubscribe_stops). "
+    "A SUBACK/UNSUBACK that arrives before Subscribe/Unsubscribe has registered its request completes it like any other (E5 repaired, 346378d; theorems under C12, "
+    "exercised by the early ops of the client generator).") +
     " PARTIAL: 'without leaving goroutines behind' and real sockets/timeouts are runtime facts outside the model (the harness observes Connect results only).")
 
 CLAIMS['C05'] = dict(category='proof', ref='5 Core A/E/F, 8 C05',
